@@ -223,7 +223,7 @@ def get_anomalies(
             collective_anomalies.append((int(start_i), i + 1))
             i = int(start_i)
         elif size == 1:
-            point_anomalies.append((i, i))
+            point_anomalies.append((i, i + 1))
         i -= 1
     return collective_anomalies, point_anomalies
 
